@@ -1,4 +1,5 @@
 import PQ.Model.Ops
+import PQ.Model.Observe
 import PQ.Model.Crash
 import PQ.Model.CrashCb
 /-!
@@ -12,6 +13,13 @@ re-executes every operation on the model (`P := Pr`, integers ordered by `Pr.ran
 the same canonical format and compares the two strings.  A `case <id> <pq|dpq>` line starts a fresh queue.
 Output: one `DIFF` line per mismatching line (at most one per case: the rest of a diverged case is skipped),
 then a `SUMMARY` line.  No imports outside the model: links natively.
+
+**One dispatcher.**  This file contains parsing and printing only.  A trace line that names a public operation is decoded
+into an `Op Pr` (`decodeLine`) and executed by `PQ.step` — the very function the theorems are about; a line that names an
+observation is executed by `PQ.observe` (`PQ/Model/Observe.lean`); the crash mirrors run the same decoded `Op` on
+`Crash.stepF` / `Crash.stepCb`.  What remains here beside parsing and printing: the call-by-call drivers of the iterator
+machines for client calls that are not primitive (`nth`, `last`, `count`: std's default methods, desugared), the
+`iter_mut late` client pattern, and the bookkeeping of the comparison counter (`t <n>`).
 -/
 namespace PQ.Driver
 open PQ
@@ -37,9 +45,8 @@ def Pr.norm (p : Pr) : Pr := ⟨p.rank⟩
 
 abbrev Entry := Item × Pr
 
-structure St where
-  kind : Kind
-  s : Store Pr
+/-- the driver's state is a queue of the model -/
+abbrev St := Q Pr
 
 instance : Inhabited St := ⟨⟨.pq, Store.empty⟩⟩
 
@@ -164,13 +171,22 @@ def showOptE : Option Entry → String
 def showNats (a : Array Nat) : String :=
   a.foldl (fun acc x => acc ++ " " ++ toString x) (toString a.size)
 
+/-- the entry an observation / operation answered with -/
+def outEntry : R (Q Pr × Out Pr) → Option (Option Entry)
+  | .ok (_, .entry e) => some e
+  | _ => none
+
 /-- what the public peeks report in this state -/
 def showPeeks (kind : Kind) (s : Store Pr) : String :=
+  let q : Q Pr := ⟨kind, s⟩
   match kind with
-  | .pq => showOptE (MaxQ.peek s)
+  | .pq =>
+    match outEntry (observe q .peek) with
+    | some a => showOptE a
+    | none => "panic"
   | .dpq =>
-    match DQ.peekMin s, DQ.peekMax s with
-    | .ok a, .ok (_, b) => showOptE a ++ " " ++ showOptE b
+    match outEntry (observe q .peekMin), outEntry (observe q .peekMax) with
+    | some a, some b => showOptE a ++ " " ++ showOptE b
     | _, _ => "panic"
 
 def showSnap (kind : Kind) (s : Store Pr) (dt : Nat) : String :=
@@ -245,113 +261,67 @@ def writeP : Pm (IMWrite Pr) := do
   let wpl ← flag; let pl ← nat
   pure ⟨if wp then some p else none, if wpl then some pl else none⟩
 
-/-- amounts for which `reserve` deterministically reports a capacity overflow (see DESIGN.md, C17) -/
-def capBad (n : Nat) : Bool := n ≥ 2 ^ 61
+/-! ## execution
 
-/-! ## execution -/
+Nothing below dispatches to `MaxQ.*` / `DQ.*`: operations go through `step`, observations through `observe`. -/
 
-/-- result of one operation: new state, canonical result string -/
+/-- result of one line: new state, canonical result string -/
 abbrev Res := Except Fault (St × String)
 
-def kOp (st : St) (fpq : Store Pr → R (Store Pr × String)) (fdpq : Store Pr → R (Store Pr × String)) : Res := do
-  let (s, out) ← match st.kind with
-    | .pq => fpq st.s
-    | .dpq => fdpq st.s
-  pure ({ st with s := s }, out)
+/-- execute an operation of the alphabet on the model and print its answer -/
+def viaStep (st : St) (op : Op Pr) (render : Out Pr → String) : Res := do
+  let (q, o) ← step st op
+  pure (q, render o)
 
-def buildOther (kind : Kind) (xs : Array Entry) : R (Store Pr) :=
-  match kind with
-  | .pq => MaxQ.pushAll xs.toList Store.empty
-  | .dpq => DQ.pushAll xs.toList Store.empty
+/-- execute an observation on the model and print its answer -/
+def viaObserve (st : St) (ob : Obs Pr) (render : Out Pr → String) : Res := do
+  let (q, o) ← observe st ob
+  pure (q, render o)
 
-/-- run an `iter_mut` program on the map.  Programs made of primitive calls only go through the model's own
-`iterMutRun` (the function the theorems are about); programs containing `nth`/`nth_back`/`last`/`count` are desugared call by
-call.  Returns the rewritten store, the outputs, and whether the guard was consumed inside the program (`last`/`count`). -/
-def runIterMut (kind : Kind) (prog : Array (XCall × IMWrite Pr)) (s : Store Pr) : R (Store Pr × String × Bool) := do
-  let n := s.map.size
-  let prims := prog.toList.filterMap fun (c, w) => match c with | .prim c => some (c, w) | _ => none
-  if prims.length == prog.size then
-    -- outputs are shown against the map as it was when each call was made: replay the writes alongside
-    let (outs, m) ← iterMutRun kind n prims PIterMut.new (DIterMut.new n) s.map
-    let mut map := s.map
+/-! ### printing the answers (`Out`) -/
+
+def showOutPrio : Out Pr → String
+  | .prio r => showOptP r
+  | _ => "?out"
+
+def showOutEntry : Out Pr → String
+  | .entry r => showOptE r
+  | _ => "?out"
+
+def showOutBool : Out Pr → String
+  | .bool b => toString b
+  | _ => "?out"
+
+def showOutKeys : Out Pr → String
+  | .entries l => showKeys l
+  | _ => "?out"
+
+/-- the `olen … omap … oh … oq …` answer of `append`: what is left of the other queue -/
+def showOutOther : Out Pr → String
+  | .other len map heap qp => s!"olen {len} omap {map} oh {heap} oq {qp}"
+  | _ => "?out"
+
+/-- the outputs of an `iter_mut` program of primitive calls, each shown against the map as it was when the call was made
+(the writes are replayed alongside) -/
+def showIterOuts (m : IMap Pr) (prims : List (ICall × IMWrite Pr)) : Out Pr → String
+  | .outs outs => Id.run do
+    let mut map := m
     let mut out := ""
     for (o, (_, w)) in outs.zip prims do
       out := out ++ " " ++ showOut map o
       match o with
       | .slot (some i) => map := IMap.applyWrite map i w
       | _ => pure ()
-    pure ({ s with map := m }, out, false)
-  else
-    let mut map := s.map
-    let mut out := ""
-    let mut pit := PIterMut.new
-    let mut dit := DIterMut.new n
-    let mut gone := false
-    for (c, w) in prog do
-      if gone then
-        out := out ++ " gone"
-      else
-        match c with
-        | .last | .count =>
-          let (lastSlot, cnt) ← match kind with
-            | .pq => do
-              let (_, l, k) ← xdrain (fun it c => pure (PIterMut.step n it c)) n pit
-              pure (l, k)
-            | .dpq => do
-              let (_, l, k) ← xdrain (DIterMut.step n) n dit
-              pure (l, k)
-          gone := true
-          match c with
-          | .last => out := out ++ " " ++ showOut map (.slot lastSlot)
-          | _ => out := out ++ s!" l {cnt}"
-        | _ =>
-          let o ← match kind with
-            | .pq => do
-              let (it', o) ← xstep (fun it c => pure (PIterMut.step n it c)) pit c
-              pit := it'
-              pure o
-            | .dpq => do
-              let (it', o) ← xstep (DIterMut.step n) dit c
-              dit := it'
-              pure o
-          out := out ++ " " ++ showOut map o
-          match o with
-          | .slot (some i) => map := IMap.applyWrite map i w
-          | _ => pure ()
-    pure ({ s with map := map }, out, gone)
+    pure out
+  | _ => "?out"
 
-/-- the `late` mode of the harness: the references are collected, the guard is dropped (heap rebuilt on the UNCHANGED
-priorities), and only then the writes are performed — what `iter_mut().collect::<Vec<_>>()` followed by writes does -/
-def runIterMutLate (kind : Kind) (prog : Array (XCall × IMWrite Pr)) (s : Store Pr) : R (Store Pr × String) := do
-  let prims := prog.toList.filterMap fun (c, w) => match c with | .prim c => some (c, w) | _ => none
-  if prims.length == prog.size then
-    -- the model's own definition (`Ops.iterMutLate`); outputs are shown against the unwritten map
-    let (s', outs) ← iterMutLate kind s prims
-    let out := outs.foldl (fun acc o => acc ++ " " ++ showOut s.map o) ""
-    return (s', out)
-  let nowrite : IMWrite Pr := ⟨none, none⟩
-  let (_, out, _) ← runIterMut kind (prog.map fun (c, _) => (c, nowrite)) s
-  let s1 ← match kind with | .pq => MaxQ.heapBuild s | .dpq => DQ.heapBuild s
-  -- now the writes, in yield order, with nobody rebuilding afterwards
-  let n := s.map.size
-  let mut map := s1.map
-  let mut pit := PIterMut.new
-  let mut dit := DIterMut.new n
-  for (c, w) in prog do
-    let o ← match kind with
-      | .pq => do
-        let (it', o) ← xstep (fun it c => pure (PIterMut.step n it c)) pit c
-        pit := it'
-        pure o
-      | .dpq => do
-        let (it', o) ← xstep (DIterMut.step n) dit c
-        dit := it'
-        pure o
-    match o with
-    | .slot (some i) => map := IMap.applyWrite map i w
-    | _ => pure ()
-  pure ({ s1 with map := map }, out)
+/-- the predicate-call log of `retain` / `retain_mut`: the keys in slot order (the order `IndexMap::retain` visits them) -/
+def showRetainLog (st : St) : String :=
+  match observe st .intoVec with
+  | .ok (_, .entries l) => l.foldl (fun acc e => acc ++ s!" {e.1.key}") s!"{l.length}"
+  | _ => "?out"
 
+/-- a plain cursor over the entries `m` in slot order (`iter`, `into_iter`, `drain`), driven call by call -/
 def runCursor (m : IMap Pr) (calls : Array XCall) : String := Id.run do
   let mut c := Cursor.new m.size
   let mut out := ""
@@ -375,6 +345,228 @@ def runCursor (m : IMap Pr) (calls : Array XCall) : String := Id.run do
         | .error _ => out := out ++ " fault"
   pure out
 
+/-! ### decoding a trace line into an operation of the alphabet -/
+
+/-- the closure of the `pop_if` family as data: an optional write to payload and priority, and the verdict -/
+def popPred (w : IMWrite Pr) (ret : Bool) : Item → Pr → Bool × Item × Pr := fun it p =>
+  (ret, (match w.payload with | some pl => { it with payload := pl } | none => it),
+    (match w.prio with | some q => q | none => p))
+
+/-- `other` of `append` / `eq` as the harness builds it: pushes, in order, into an empty queue of the same kind
+(`extend` from an iterator announcing nothing is exactly that) -/
+def buildOther (kind : Kind) (xs : Array Entry) : R (Store Pr) := do
+  let (q, _) ← step (Q.new kind) (.extend 0 xs)
+  pure q.s
+
+/-- the primitive calls of a client program, if it consists of primitive calls only -/
+def primsOf (prog : Array (XCall × IMWrite Pr)) : Option (List (ICall × IMWrite Pr)) :=
+  let prims := prog.toList.filterMap fun (c, w) => match c with | .prim c => some (c, w) | _ => none
+  if prims.length == prog.size then some prims else none
+
+/-- a decoded operation line -/
+structure Dec where
+  op : Op Pr
+  /-- canonical text of the answer (given the queue BEFORE the operation) -/
+  render : St → Out Pr → String
+  /-- the kind that has this method (`none`: both) -/
+  only : Option Kind := none
+  /-- measure the comparisons of the operation itself only: both counters start at zero (for `append`, which may swap
+  the two stores, and whose other queue was built outside the measured window) -/
+  window : Bool := false
+  /-- the operation installs a freshly built store: the comparison count of the line is the new store's own counter -/
+  fresh : Bool := false
+
+inductive Line where
+  /-- an operation of the alphabet -/
+  | op (d : Dec)
+  /-- `iter_mut` in a form that is not an operation of the alphabet: a program with `nth` / `last` / `count`, or the
+  `late` client pattern -/
+  | iterMutX (mode : String) (prog : Array (XCall × IMWrite Pr))
+  /-- not an operation line (nothing consumed) -/
+  | other
+
+/-- decode `<name> <args…>` into an `Op Pr` and the printer of its answer -/
+def decodeLine (kind : Kind) (name : String) : Pm Line := do
+  let unit : St → Out Pr → String := fun _ _ => "unit"
+  match name with
+  | "push" =>
+    let e ← entry
+    pure <| .op { op := .push e.1 e.2, render := fun _ => showOutPrio }
+  | "push_increase" =>
+    let e ← entry
+    pure <| .op { op := .pushIncrease e.1 e.2, render := fun _ => showOutPrio }
+  | "push_decrease" =>
+    let e ← entry
+    pure <| .op { op := .pushDecrease e.1 e.2, render := fun _ => showOutPrio }
+  | "change_priority" =>
+    let k ← nat; let p ← int
+    pure <| .op { op := .changePriority k p, render := fun _ => showOutPrio }
+  | "change_priority_by" =>
+    let k ← nat; let p ← int
+    pure <| .op { op := .changePriorityBy k (fun _ => p), render := fun _ => showOutBool }
+  | "remove" =>
+    let k ← nat
+    pure <| .op { op := .remove k, render := fun _ => showOutEntry }
+  | "get_mut" =>
+    let k ← nat; let pl ← nat
+    pure <| .op { op := .getMut k (fun it => { it with payload := pl }), render := fun _ => showOutEntry }
+  | "pop" => pure <| .op { op := .popFront, render := fun _ => showOutEntry, only := some .pq }
+  | "pop_min" => pure <| .op { op := .popFront, render := fun _ => showOutEntry, only := some .dpq }
+  | "pop_max" => pure <| .op { op := .popBack, render := fun _ => showOutEntry, only := some .dpq }
+  | "pop_if" | "pop_min_if" | "pop_max_if" =>
+    let w ← writeP; let ret ← flag
+    let f := popPred w ret
+    -- the element the predicate is shown: observed independently of the pop itself
+    let seen : Obs Pr := if name == "pop_if" then .peek else if name == "pop_min_if" then .peekMin else .peekMax
+    let render : St → Out Pr → String := fun st o =>
+      match outEntry (observe st seen) with
+      | some e => s!"seen {showOptE e} ret {showOutEntry o}"
+      | none => "?seen"
+    pure <| .op { op := if name == "pop_max_if" then .popBackIf f else .popFrontIf f, render := render,
+                  only := some (if name == "pop_if" then .pq else .dpq) }
+  | "peek_mut" =>
+    let pl ← nat
+    pure <| .op { op := .peekFrontMut (fun it => { it with payload := pl }), render := fun _ => showOutEntry, only := some .pq }
+  | "peek_min_mut" =>
+    let pl ← nat
+    pure <| .op { op := .peekFrontMut (fun it => { it with payload := pl }), render := fun _ => showOutEntry, only := some .dpq }
+  | "peek_max_mut" =>
+    let pl ← nat
+    pure <| .op { op := .peekBackMut (fun it => { it with payload := pl }), render := fun _ => showOutEntry, only := some .dpq }
+  | "retain_mut" | "retain" =>
+    let n ← nat; let rows ← rep n predRow
+    -- `retain` hands out shared references: the rows' writes are ignored
+    let rows := if name == "retain" then rows.map (fun r => { r with prio := none, payload := none }) else rows
+    pure <| .op { op := .retainMut (predOf rows), render := fun st _ => showRetainLog st }
+  | "iter_mut" =>
+    let mode ← tok
+    let n ← nat
+    let prog ← rep n (do let c ← xcall; let w ← writeP; pure (c, w))
+    match (if mode == "late" then none else primsOf prog) with
+    | some prims =>
+      -- `drop`: the guard's `Drop` rebuilds; any other mode leaks it
+      pure <| .op { op := .iterMut (mode != "drop") prims, render := fun st => showIterOuts st.s.map prims }
+    | none => pure <| .iterMutX mode prog
+  | "extend" =>
+    let lo ← nat; let _hi ← optNat; let xs ← entries
+    pure <| .op { op := .extend lo xs, render := unit }
+  | "from_iter" =>
+    let lo ← nat; let _hi ← optNat; let xs ← entries
+    pure <| .op { op := .fromIter lo xs, render := unit, fresh := true }
+  | "from_vec" =>
+    let xs ← entries
+    pure <| .op { op := .fromVec xs, render := unit, fresh := true }
+  | "deser" =>
+    let xs ← entries
+    pure <| .op { op := .deserialize none xs, render := fun _ _ => "ok", fresh := true }
+  | "deser_hint" =>
+    -- the length the input announces: any natural number (possibly ≥ 2^64 - 1), unrelated to the pairs that follow
+    let hint ← nat; let xs ← entries
+    pure <| .op { op := .deserialize (some hint) xs, render := fun _ _ => "ok", fresh := true }
+  | "deser_unit" => pure <| .op { op := .deserialize none #[], render := fun _ _ => "ok", fresh := true }
+  | "append" =>
+    let _cap ← nat    -- the other queue's initial capacity: not part of the modelled state
+    let xs ← entries
+    match buildOther kind xs with
+    | .error f => throw s!"model fault {showFaultSite f} while building the other queue"
+    | .ok o => pure <| .op { op := .append { o with ticks := 0 }, render := fun _ => showOutOther, window := true }
+  | "convert" => pure <| .op { op := .convert, render := unit }
+  | "clear" => pure <| .op { op := .clear, render := unit }
+  | "drain" =>
+    let _mode ← tok
+    let n ← nat; let calls ← rep n xcall
+    -- the draining iterator is a cursor over the drained entries, whatever is done with it
+    pure <| .op { op := .drain, render := fun _ o => match o with
+      | .entries es => runCursor es.toArray calls
+      | _ => "?out" }
+  | "shrink_to_fit" | "capacity" => pure <| .op { op := .capacityOp, render := fun _ _ => "capok" }
+  | _ => pure .other
+
+/-- run a decoded operation: `step`, nothing else (plus the counter bookkeeping the line asks for) -/
+def runDec (st : St) (d : Dec) : Res := do
+  let t0 := st.s.ticks
+  let q0 : St := if d.window then { st with s := { st.s with ticks := 0 } } else st
+  let (q, o) ← step q0 d.op
+  -- the comparisons of a windowed / freshly built store are its own counter: keep the queue's running total monotone
+  let q : St := if d.window || d.fresh then { q with s := { q.s with ticks := q.s.ticks + t0 } } else q
+  pure (q, d.render st o)
+
+/-! ### client programs that are not operations of the alphabet (desugared call by call) -/
+
+/-- run an `iter_mut` program containing `nth` / `nth_back` / `last` / `count` on the map, call by call on the iterator
+machine of the queue kind.  Returns the rewritten store, the outputs, and whether the guard was consumed inside the program
+(`last` / `count`). -/
+def runIterMut (kind : Kind) (prog : Array (XCall × IMWrite Pr)) (s : Store Pr) : R (Store Pr × String × Bool) := do
+  let n := s.map.size
+  let mut map := s.map
+  let mut out := ""
+  let mut pit := PIterMut.new
+  let mut dit := DIterMut.new n
+  let mut gone := false
+  for (c, w) in prog do
+    if gone then
+      out := out ++ " gone"
+    else
+      match c with
+      | .last | .count =>
+        let (lastSlot, cnt) ← match kind with
+          | .pq => do
+            let (_, l, k) ← xdrain (fun it c => pure (PIterMut.step n it c)) n pit
+            pure (l, k)
+          | .dpq => do
+            let (_, l, k) ← xdrain (DIterMut.step n) n dit
+            pure (l, k)
+        gone := true
+        match c with
+        | .last => out := out ++ " " ++ showOut map (.slot lastSlot)
+        | _ => out := out ++ s!" l {cnt}"
+      | _ =>
+        let o ← match kind with
+          | .pq => do
+            let (it', o) ← xstep (fun it c => pure (PIterMut.step n it c)) pit c
+            pit := it'
+            pure o
+          | .dpq => do
+            let (it', o) ← xstep (DIterMut.step n) dit c
+            dit := it'
+            pure o
+        out := out ++ " " ++ showOut map o
+        match o with
+        | .slot (some i) => map := IMap.applyWrite map i w
+        | _ => pure ()
+  pure ({ s with map := map }, out, gone)
+
+/-- the `late` mode of the harness: the references are collected, the guard is dropped (heap rebuilt on the UNCHANGED
+priorities), and only then the writes are performed — what `iter_mut().collect::<Vec<_>>()` followed by writes does -/
+def runIterMutLate (kind : Kind) (prog : Array (XCall × IMWrite Pr)) (s : Store Pr) : R (Store Pr × String) := do
+  if let some prims := primsOf prog then
+    -- the model's own definition (`Ops.iterMutLate`); outputs are shown against the unwritten map
+    let (s', outs) ← iterMutLate kind s prims
+    let out := outs.foldl (fun acc o => acc ++ " " ++ showOut s.map o) ""
+    return (s', out)
+  let nowrite : IMWrite Pr := ⟨none, none⟩
+  let (_, out, _) ← runIterMut kind (prog.map fun (c, _) => (c, nowrite)) s
+  let s1 ← heapBuildK kind s
+  -- now the writes, in yield order, with nobody rebuilding afterwards
+  let n := s.map.size
+  let mut map := s1.map
+  let mut pit := PIterMut.new
+  let mut dit := DIterMut.new n
+  for (c, w) in prog do
+    let o ← match kind with
+      | .pq => do
+        let (it', o) ← xstep (fun it c => pure (PIterMut.step n it c)) pit c
+        pit := it'
+        pure o
+      | .dpq => do
+        let (it', o) ← xstep (DIterMut.step n) dit c
+        dit := it'
+        pure o
+    match o with
+    | .slot (some i) => map := IMap.applyWrite map i w
+    | _ => pure ()
+  pure ({ s1 with map := map }, out)
+
 /-- the sorted iterators as machines over the (consumed copy of the) store; outputs are printed directly -/
 inductive SOut where
   | item (e : Option Entry)
@@ -382,16 +574,14 @@ inductive SOut where
   | hint (lo : Nat) (hi : Option Nat)
   | unsupported
 
+/-- `next` is the front pop of the kind, `next_back` the back pop (which `PriorityQueue`'s iterator does not have) -/
 def sortedStep (kind : Kind) (s : Store Pr) : ICall → R (Store Pr × SOut)
   | .next => do
-    let (s', r) ← (match kind with | .pq => MaxQ.pop s | .dpq => DQ.popMin s)
-    pure (s', .item r)
-  | .nextBack =>
-    match kind with
-    | .pq => pure (s, .unsupported)
-    | .dpq => do
-      let (s', r) ← DQ.popMax s
-      pure (s', .item r)
+    let (q, o) ← step ⟨kind, s⟩ .popFront
+    pure (q.s, match o with | .entry r => .item r | _ => .unsupported)
+  | .nextBack => do
+    let (q, o) ← step ⟨kind, s⟩ .popBack
+    pure (q.s, match o with | .entry r => .item r | _ => .unsupported)
   | .len => pure (s, match kind with | .pq => .unsupported | .dpq => .len s.size)
   | .sizeHint => pure (s, match kind with | .pq => .hint 0 none | .dpq => .hint s.size (some s.size))
 
@@ -444,209 +634,87 @@ def runSorted (kind : Kind) (calls : Array XCall) (s : Store Pr) : R (String × 
       | .unsupported => " u")
   pure (out, s.ticks - t0)
 
-def exec (st : St) (op : String) : Pm Res := do
-  let s := st.s
-  match op with
-  | "push" =>
-    let e ← entry
-    pure <| kOp st (fun s => do let (s, r) ← MaxQ.push s e.1 e.2; pure (s, showOptP r))
-                   (fun s => do let (s, r) ← DQ.push s e.1 e.2; pure (s, showOptP r))
-  | "push_increase" =>
-    let e ← entry
-    pure <| kOp st (fun s => do let (s, r) ← MaxQ.pushIncrease s e.1 e.2; pure (s, showOptP r))
-                   (fun s => do let (s, r) ← DQ.pushIncrease s e.1 e.2; pure (s, showOptP r))
-  | "push_decrease" =>
-    let e ← entry
-    pure <| kOp st (fun s => do let (s, r) ← MaxQ.pushDecrease s e.1 e.2; pure (s, showOptP r))
-                   (fun s => do let (s, r) ← DQ.pushDecrease s e.1 e.2; pure (s, showOptP r))
-  | "change_priority" =>
-    let k ← nat; let p ← int
-    pure <| kOp st (fun s => do let (s, r) ← MaxQ.changePriority s k p; pure (s, showOptP r))
-                   (fun s => do let (s, r) ← DQ.changePriority s k p; pure (s, showOptP r))
-  | "change_priority_by" =>
-    let k ← nat; let p ← int
-    pure <| kOp st (fun s => do let (s, r) ← MaxQ.changePriorityBy s k (fun _ => p); pure (s, toString r))
-                   (fun s => do let (s, r) ← DQ.changePriorityBy s k (fun _ => p); pure (s, toString r))
-  | "get_priority" =>
-    let k ← nat
-    pure <| .ok (st, showOptP (s.getPriority k))
-  | "get" =>
-    let k ← nat
-    pure <| .ok (st, showOptE (s.get k))
-  | "get_mut" =>
-    let k ← nat; let pl ← nat
-    let (s', r) := s.getMutWrite k (fun it => { it with payload := pl })
-    pure <| .ok ({ st with s := s' }, showOptE r)
-  | "remove" =>
-    let k ← nat
-    pure <| kOp st (fun s => do let (s, r) ← MaxQ.remove s k; pure (s, showOptE r))
-                   (fun s => do let (s, r) ← DQ.remove s k; pure (s, showOptE r))
-  | "peek" => pure <| .ok (st, showOptE (MaxQ.peek s))
-  | "peek_min" => pure <| do let r ← DQ.peekMin s; pure (st, showOptE r)
-  | "peek_max" => pure <| do let (s, r) ← DQ.peekMax s; pure ({ st with s := s }, showOptE r)
-  | "peek_mut" =>
-    let pl ← nat
-    pure <| do let (s, r) ← MaxQ.peekMutWrite s (fun it => { it with payload := pl }); pure ({ st with s := s }, showOptE r)
-  | "peek_min_mut" =>
-    let pl ← nat
-    pure <| do let (s, r) ← DQ.peekMinMutWrite s (fun it => { it with payload := pl }); pure ({ st with s := s }, showOptE r)
-  | "peek_max_mut" =>
-    let pl ← nat
-    pure <| do let (s, r) ← DQ.peekMaxMutWrite s (fun it => { it with payload := pl }); pure ({ st with s := s }, showOptE r)
-  | "pop" => pure <| do let (s, r) ← MaxQ.pop s; pure ({ st with s := s }, showOptE r)
-  | "pop_min" => pure <| do let (s, r) ← DQ.popMin s; pure ({ st with s := s }, showOptE r)
-  | "pop_max" => pure <| do let (s, r) ← DQ.popMax s; pure ({ st with s := s }, showOptE r)
-  | "pop_if" | "pop_min_if" | "pop_max_if" =>
-    let w ← writeP; let ret ← flag
-    let f : Item → Pr → Bool × Item × Pr := fun it p =>
-      (ret, (match w.payload with | some pl => { it with payload := pl } | none => it),
-        (match w.prio with | some q => q | none => p))
-    pure <| do
-      -- the element the predicate is shown: computed independently of the pop itself
-      let (seen, s1) ← match op with
-        | "pop_if" => pure (MaxQ.peek s, s)
-        | "pop_min_if" => do let r ← DQ.peekMin s; pure (r, s)
-        | _ => do let (s1, r) ← DQ.peekMax s; pure (r, s1)
-      -- `peek_max` inside the judge costs one comparison that the real `pop_max_if` also performs once;
-      -- run the operation itself from the original store
-      let _ := s1
-      let (s', r) ← match op with
-        | "pop_if" => MaxQ.popIf s f
-        | "pop_min_if" => DQ.popMinIf s f
-        | _ => DQ.popMaxIf s f
-      pure ({ st with s := s' }, s!"seen {showOptE seen} ret {showOptE r}")
-  | "retain_mut" | "retain" =>
-    let n ← nat; let rows ← rep n predRow
-    -- `retain` hands out shared references: the rows' writes are ignored
-    let rows := if op == "retain" then rows.map (fun r => { r with prio := none, payload := none }) else rows
-    let f := predOf rows
-    let log := s.map.foldl (fun acc e => acc ++ s!" {e.1.key}") s!"{s.map.size}"
-    pure <| kOp st (fun s => do let s ← MaxQ.retainMut s f; pure (s, log))
-                   (fun s => do let s ← DQ.retainMut s f; pure (s, log))
-  | "iter_mut" =>
-    let mode ← tok
-    let n ← nat
-    let prog ← rep n (do let c ← xcall; let w ← writeP; pure (c, w))
+/-! ### one line -/
+
+def exec (st : St) (name : String) : Pm Res := do
+  match (← decodeLine st.kind name) with
+  | .op d =>
+    if let some k := d.only then
+      if k != st.kind then throw s!"{name} is not a method of this queue kind"
+    pure (runDec st d)
+  | .iterMutX mode prog =>
     pure <| do
       if mode == "late" then
-        let (s, out) ← runIterMutLate st.kind prog s
+        let (s, out) ← runIterMutLate st.kind prog st.s
         pure ({ st with s := s }, out)
       else
-        let (s, out, gone) ← runIterMut st.kind prog s
+        let (s, out, gone) ← runIterMut st.kind prog st.s
         -- `last()` / `count()` consume the guard, whose Drop rebuilds, whatever the mode says
-        let s ← if mode == "drop" || gone then (match st.kind with | .pq => MaxQ.heapBuild s | .dpq => DQ.heapBuild s) else pure s
+        let s ← if mode == "drop" || gone then heapBuildK st.kind s else pure s
         pure ({ st with s := s }, out)
-  | "extend" =>
-    let lo ← nat; let _hi ← optNat; let xs ← entries
-    pure <| kOp st (fun s => do let s ← MaxQ.extend s lo xs; pure (s, "unit"))
-                   (fun s => do let s ← DQ.extend s lo xs; pure (s, "unit"))
-  | "from_iter" =>
-    let _lo ← nat; let _hi ← optNat; let xs ← entries
-    pure <| kOp st (fun _ => do let s ← MaxQ.fromIter xs; pure (s, "unit"))
-                   (fun _ => do let s ← DQ.fromIter xs; pure (s, "unit"))
-  | "from_vec" =>
-    let xs ← entries
-    pure <| kOp st (fun _ => do let s ← MaxQ.fromVec xs; pure (s, "unit"))
-                   (fun _ => do let s ← DQ.fromVec xs; pure (s, "unit"))
-  | "append" =>
-    let _cap ← nat    -- the other queue's initial capacity: not part of the modelled state
-    let xs ← entries
-    pure <| do
-      let o ← buildOther st.kind xs
-      -- comparisons spent building `other` are outside the measured window: only those of `heap_build` count
-      let t0 := s.ticks
-      let (s', o') ← match st.kind with
-        | .pq => MaxQ.append { s with ticks := 0 } { o with ticks := 0 }
-        | .dpq => DQ.append { s with ticks := 0 } { o with ticks := 0 }
-      pure ({ st with s := { s' with ticks := s'.ticks + t0 } },
-        s!"olen {o'.size} omap {o'.map.size} oh {o'.heap.size} oq {o'.qp.size}")
-  | "convert" =>
-    pure <| do
-      match st.kind with
-      | .pq => let s ← DQ.ofStore s; pure ({ kind := .dpq, s := s }, "unit")
-      | .dpq => let s ← MaxQ.ofStore s; pure ({ kind := .pq, s := s }, "unit")
-  | "serde_rt" =>
-    let k ← kindP
-    pure <| do
-      let t0 := s.ticks
-      let s' ← match k with
-        | .pq => MaxQ.deserialize (P := Pr) s.map
-        | .dpq => DQ.deserialize (P := Pr) s.map
-      pure ({ kind := k, s := { s' with ticks := s'.ticks + t0 } }, "ok")
-  | "deser" =>
-    let xs ← entries
-    pure <| do
-      let t0 := s.ticks
-      let s' ← match st.kind with
-        | .pq => MaxQ.deserialize xs
-        | .dpq => DQ.deserialize xs
-      pure ({ st with s := { s' with ticks := s'.ticks + t0 } }, "ok")
-  | "clear" => pure <| .ok ({ st with s := s.clear }, "unit")
-  | "drain" =>
-    let _mode ← tok
-    let n ← nat; let calls ← rep n xcall
-    let (es, s') := s.drain
-    pure <| .ok ({ st with s := s' }, runCursor es calls)
-  | "iter" | "into_iter" =>
-    let n ← nat; let calls ← rep n xcall
-    pure <| .ok (st, runCursor s.map calls)
-  | "into_vec" => pure <| .ok (st, showKeys s.map.toList)
-  | "into_sorted_vec" =>
-    pure <| do
-      let l ← MaxQ.intoSortedVec s
-      -- ticks spent on the consumed copy
-      pure ({ st with s := s }, showKeys l)
-  | "into_asc_vec" => pure <| do let l ← DQ.intoAscendingSortedVec s; pure (st, showKeys l)
-  | "into_desc_vec" => pure <| do let l ← DQ.intoDescendingSortedVec s; pure (st, showKeys l)
-  | "into_sorted_iter" =>
-    let n ← nat; let calls ← rep n xcall
-    pure <| do
-      let (out, _) ← runSorted st.kind calls s
-      pure (st, out)
-  | "len" => pure <| .ok (st, toString s.size)
-  | "is_empty" => pure <| .ok (st, toString s.isEmpty)
-  | "reserve" | "reserve_exact" =>
-    let n ← nat
-    pure <| if capBad n then .error .capacity else .ok (st, "capok")
-  | "try_reserve" | "try_reserve_exact" =>
-    let n ← nat
-    pure <| .ok (st, if capBad n then "err" else "capok")
-  | "try_reserve_oom" =>
-    let _exact ← nat; let _n ← nat
-    pure <| .ok (st, "capok")     -- or "err": see Main.lean
-  | "shrink_to_fit" => pure <| .ok (st, "capok")
-  | "capacity" => pure <| .ok (st, "capok")
+  | .other =>
+  match name with
+  -- observations
+  | "get_priority" =>
+    let k ← nat
+    pure <| viaObserve st (.getPriority k) showOutPrio
+  | "get" =>
+    let k ← nat
+    pure <| viaObserve st (.get k) showOutEntry
+  | "peek" => pure <| viaObserve st .peek showOutEntry
+  | "peek_min" => pure <| viaObserve st .peekMin showOutEntry
+  | "peek_max" => pure <| viaObserve st .peekMax showOutEntry
+  | "len" => pure <| viaObserve st .len (fun o => match o with | .nat n => toString n | _ => "?out")
+  | "is_empty" => pure <| viaObserve st .isEmpty showOutBool
+  | "into_vec" => pure <| viaObserve st .intoVec showOutKeys
+  -- (the comparisons these three spend on the consumed copy: `copyOpTicks`)
+  | "into_sorted_vec" => pure <| viaObserve st .intoSortedVec showOutKeys
+  | "into_asc_vec" => pure <| viaObserve st .intoAscVec showOutKeys
+  | "into_desc_vec" => pure <| viaObserve st .intoDescVec showOutKeys
+  | "dbg" =>
+    -- `Debug` lists, in heap order, the slot index and the entry stored there (an `unwrap` on `get_index`)
+    pure <| viaObserve st .debug (fun o => match o with
+      | .debug l => l.foldl (fun acc x => acc ++ s!" {x.1} {showE (x.2.1, x.2.2)}") (toString l.length)
+      | _ => "?out")
   | "eq" =>
     let xs ← entries
     pure <| do
       let o ← buildOther st.kind xs
       -- the priority type's `==` looks at the rank only: compare the rank-normalised maps
       let nm (x : Store Pr) : Store Pr := { x with map := x.map.map (fun e => (e.1, e.2.norm)) }
-      pure ({ st with s := s.tick o.ticks }, toString (Store.eqv (nm s) (nm o)))
+      let (_, r) ← observe { st with s := nm st.s } (.eqv (nm o))
+      pure ({ st with s := st.s.tick o.ticks }, showOutBool r)
+  -- the iterator machines, driven call by call
+  | "iter" | "into_iter" =>
+    let n ← nat; let calls ← rep n xcall
+    pure <| .ok (st, runCursor st.s.map calls)
+  | "into_sorted_iter" =>
+    let n ← nat; let calls ← rep n xcall
+    pure <| do
+      let (out, _) ← runSorted st.kind calls st.s
+      pure (st, out)
+  -- capacity requests: `reserveC` is the model's capacity check; a granted request is the no-op `Op.capacityOp`
+  | "reserve" | "reserve_exact" =>
+    let n ← nat
+    pure <| do
+      reserveC n
+      viaStep st .capacityOp (fun _ => "capok")
+  | "try_reserve" | "try_reserve_exact" =>
+    let n ← nat
+    pure <| match reserveC n with
+      | .ok _ => viaStep st .capacityOp (fun _ => "capok")
+      | .error _ => .ok (st, "err")
+  | "try_reserve_oom" =>
+    let _exact ← nat; let _n ← nat
+    pure <| .ok (st, "capok")     -- or "err": see Main.lean
+  | "serde_rt" =>
+    -- serialize, then deserialize as kind `k`: the entries in slot order, announced faithfully or not at all
+    let k ← kindP
+    pure <| runDec { st with kind := k } { op := .deserialize none st.s.map, render := fun _ _ => "ok", fresh := true }
   | "fresh" =>
     let _ctor ← nat; let _cap ← nat
     -- every public constructor gives the empty queue of the model (`Q.new`); capacity is not part of the modelled state
-    pure <| .ok ({ st with s := Store.empty }, "capok")
-  | "dbg" =>
-    -- `Debug` lists, in heap order, the slot index and the entry stored there (an `unwrap` on `get_index`)
-    pure <| do
-      let l ← s.debugEntries
-      pure (st, l.foldl (fun acc x => acc ++ s!" {x.1} {showE (x.2.1, x.2.2)}") (toString l.length))
-  | "deser_unit" =>
-    pure <| do
-      let s' ← match st.kind with
-        | .pq => MaxQ.deserialize (P := Pr) #[]
-        | .dpq => DQ.deserialize (P := Pr) #[]
-      pure ({ st with s := { s' with ticks := s'.ticks + s.ticks } }, "ok")
-  | "deser_hint" =>
-    -- the announced length is not part of the modelled state (the pre-allocation is capped: fix F8)
-    let _hint ← nat; let xs ← entries
-    pure <| do
-      let t0 := s.ticks
-      let s' ← match st.kind with
-        | .pq => MaxQ.deserialize xs
-        | .dpq => DQ.deserialize xs
-      pure ({ st with s := { s' with ticks := s'.ticks + t0 } }, "ok")
+    pure <| .ok (Q.new st.kind, "capok")
   | "deser_bad" =>
     let _v ← nat; let _xs ← entries
     -- an ill-formed / ill-typed input is an error; the queue it was to replace is untouched
@@ -664,7 +732,7 @@ def exec (st : St) (op : String) : Pm Res := do
     let k ← kindP
     let s' ← snapP
     pure <| .ok ({ kind := k, s := s' }, "ok")
-  | _ => throw s!"unknown op {op}"
+  | _ => throw s!"unknown op {name}"
 
 /-- white-box state without peeks and counter (what the harness can read after an injected fault) -/
 def showCore (s : Store Pr) : String :=
@@ -675,142 +743,73 @@ def kindName : Kind → String
   | .pq => "pq"
   | .dpq => "dpq"
 
-/-- C10 mirror: run `op` on the crash model with the `k`-th comparison of the operation panicking; returns the model's
-post-unwinding state (`none` = the fuse did not fire). -/
-def execCrash (st : St) (k : Nat) (op : String) : Pm (Except String (Option (Kind × Store Pr))) := do
+/-- the operations the comparison-crash mirror of the harness injects into -/
+def crashOps : List String :=
+  ["push", "push_increase", "push_decrease", "change_priority", "change_priority_by", "remove", "pop", "pop_min", "pop_max",
+   "pop_if", "pop_min_if", "pop_max_if", "retain_mut", "iter_mut", "extend", "from_vec", "from_iter", "append"]
+
+/-- C10 mirror: run `op` on the crash model (`Crash.stepF`: the fused twin of `step`) with the `k`-th comparison of the
+operation panicking; returns the model's post-unwinding state (`none` = the fuse did not fire). -/
+def execCrash (st : St) (k : Nat) (name : String) : Pm (Except String (Option (Kind × Store Pr))) := do
   -- the ghost counter is zeroed so that `fuse = k` is the k-th comparison of this operation whichever store ends
   -- up as the receiver (`append` may swap)
-  let s : Store Pr := { st.s with ticks := 0 }
-  let pq := st.kind == .pq
-  let fin {α : Type} (r : Crash.CR Pr α) : Except String (Option (Kind × Store Pr)) :=
+  let q0 : Q Pr := { st with s := { st.s with ticks := 0 } }
+  let fin {α : Type} (r : Crash.CRQ Pr α) : Except String (Option (Kind × Store Pr)) :=
     match r with
     | .ok _ => .ok none
-    | .error (.crashed s') => .ok (some (st.kind, s'))
+    | .error (.crashed q') => .ok (some (q'.kind, q'.s))
     | .error .crashedNew => .ok (some (st.kind, st.s))
     | .error (.fault f) => .error s!"model fault {showFaultSite f} inside a fused operation"
-  match op with
-  | "push" =>
-    let e ← entry
-    pure <| if pq then fin (Crash.MaxQ.pushF k s e.1 e.2) else fin (Crash.DQ.pushF k s e.1 e.2)
-  | "push_increase" =>
-    let e ← entry
-    pure <| if pq then fin (Crash.MaxQ.pushIncreaseF k s e.1 e.2) else fin (Crash.DQ.pushIncreaseF k s e.1 e.2)
-  | "push_decrease" =>
-    let e ← entry
-    pure <| if pq then fin (Crash.MaxQ.pushDecreaseF k s e.1 e.2) else fin (Crash.DQ.pushDecreaseF k s e.1 e.2)
-  | "change_priority" =>
-    let key ← nat; let p ← int
-    pure <| if pq then fin (Crash.MaxQ.changePriorityF k s key p) else fin (Crash.DQ.changePriorityF k s key p)
-  | "change_priority_by" =>
-    let key ← nat; let p ← int
-    pure <| if pq then fin (Crash.MaxQ.changePriorityByF k s key (fun _ => p)) else fin (Crash.DQ.changePriorityByF k s key (fun _ => p))
-  | "remove" =>
-    let key ← nat
-    pure <| if pq then fin (Crash.MaxQ.removeF k s key) else fin (Crash.DQ.removeF k s key)
-  | "pop" => pure <| fin (Crash.MaxQ.popF k s)
-  | "pop_min" => pure <| fin (Crash.DQ.popMinF k s)
-  | "pop_max" => pure <| fin (Crash.DQ.popMaxF k s)
-  | "peek_max" => pure <| fin (Crash.DQ.peekMaxF k s)
-  | "pop_if" | "pop_min_if" | "pop_max_if" =>
-    let w ← writeP; let ret ← flag
-    let f : Item → Pr → Bool × Item × Pr := fun it p =>
-      (ret, (match w.payload with | some pl => { it with payload := pl } | none => it),
-        (match w.prio with | some q => q | none => p))
-    pure <| match op with
-      | "pop_if" => fin (Crash.MaxQ.popIfF k s f)
-      | "pop_min_if" => fin (Crash.DQ.popMinIfF k s f)
-      | _ => fin (Crash.DQ.popMaxIfF k s f)
-  | "retain_mut" =>
-    let n ← nat; let rows ← rep n predRow
-    let f := predOf rows
-    pure <| if pq then fin (Crash.MaxQ.retainMutF k s f) else fin (Crash.DQ.retainMutF k s f)
-  | "iter_mut" =>
-    let _mode ← tok
-    let n ← nat
-    let prog ← rep n (do let c ← xcall; let w ← writeP; pure (c, w))
-    let prims := prog.toList.filterMap fun (c, w) => match c with | .prim c => some (c, w) | _ => none
-    if prims.length != prog.size then throw "crash mirror: iter_mut programs with nth are not supported"
-    pure <| if pq then fin (Crash.MaxQ.iterMutDropF k s prims) else fin (Crash.DQ.iterMutDropF k s prims)
-  | "extend" =>
-    let lo ← nat; let _hi ← optNat; let xs ← entries
-    pure <| if pq then fin (Crash.MaxQ.extendF k s lo xs) else fin (Crash.DQ.extendF k s lo xs)
-  | "from_vec" =>
-    let xs ← entries
-    pure <| if pq then fin (Crash.MaxQ.fromVecF (P := Pr) k xs) else fin (Crash.DQ.fromVecF (P := Pr) k xs)
-  | "from_iter" =>
-    let _lo ← nat; let _hi ← optNat; let xs ← entries
-    pure <| if pq then fin (Crash.MaxQ.fromIterF (P := Pr) k xs) else fin (Crash.DQ.fromIterF (P := Pr) k xs)
-  | "append" =>
-    let _cap ← nat
-    let xs ← entries
-    pure <| match buildOther st.kind xs with
-      | .error f => .error s!"model fault {showFaultSite f} while building the other queue"
-      | .ok o =>
-        let o0 : Store Pr := { o with ticks := 0 }
-        if pq then fin (Crash.MaxQ.appendF k s o0) else fin (Crash.DQ.appendF k s o0)
-  | _ => throw s!"crash mirror: unsupported operation {op}"
+  if name == "peek_max" then
+    -- an observation that compares: its own fused twin
+    return fin (Crash.liftQ st.kind (Crash.DQ.peekMaxF k q0.s))
+  if !crashOps.contains name then throw s!"crash mirror: unsupported operation {name}"
+  match (← decodeLine st.kind name) with
+  | .op d =>
+    -- the guard of a crash-mirror `iter_mut` is always dropped (the comparisons are those of its rebuild)
+    let op : Op Pr := match d.op with
+      | .iterMut _ prog => .iterMut false prog
+      | op => op
+    pure <| fin (Crash.stepF k q0 op)
+  | .iterMutX _ _ => throw "crash mirror: iter_mut programs with nth are not supported"
+  | .other => throw s!"crash mirror: unsupported operation {name}"
 
 /-- C10 mirror, callback fuses: run `op` on the callback crash model (`Model/CrashCb.lean`) with the `k`-th user callback
 (setter / predicate / source-iterator `next`) of the operation panicking on entry; `none` = the operation performs fewer
 callbacks. -/
-def execCrashCb (st : St) (k : Nat) (op : String) : Pm (Except String (Option (Kind × Store Pr))) := do
-  let q : Q Pr := { kind := st.kind, s := st.s }
+def execCrashCb (st : St) (k : Nat) (name : String) : Pm (Except String (Option (Kind × Store Pr))) := do
   let fin (r : Crash.CRQ Pr (Q Pr × Out Pr)) : Except String (Option (Kind × Store Pr)) :=
     match r with
     | .ok _ => .ok none
     | .error (.crashed q') => .ok (some (q'.kind, q'.s))
     | .error .crashedNew => .ok (some (st.kind, st.s))
     | .error (.fault f) => .error s!"model fault {showFaultSite f} inside an operation with a panicking callback"
-  match op with
-  | "change_priority_by" =>
-    let key ← nat; let p ← int
-    pure <| fin (Crash.stepCb k q (.changePriorityBy key (fun _ => p)))
-  | "pop_if" | "pop_min_if" | "pop_max_if" =>
-    let w ← writeP; let ret ← flag
-    let f : Item → Pr → Bool × Item × Pr := fun it p =>
-      (ret, (match w.payload with | some pl => { it with payload := pl } | none => it),
-        (match w.prio with | some q => q | none => p))
-    pure <| fin (Crash.stepCb k q (if op == "pop_max_if" then .popBackIf f else .popFrontIf f))
-  | "extend" =>
-    let lo ← nat; let _hi ← optNat; let xs ← entries
-    pure <| fin (Crash.stepCb k q (.extend lo xs))
-  | "from_iter" =>
-    let _lo ← nat; let _hi ← optNat; let xs ← entries
-    pure <| fin (Crash.stepCb k q (.fromIter xs))
-  | _ => throw s!"callback crash mirror: unsupported operation {op}"
+  if !["change_priority_by", "pop_if", "pop_min_if", "pop_max_if", "extend", "from_iter"].contains name then
+    throw s!"callback crash mirror: unsupported operation {name}"
+  match (← decodeLine st.kind name) with
+  | .op d => pure <| fin (Crash.stepCb k st d.op)
+  | _ => throw s!"callback crash mirror: unsupported operation {name}"
+
+/-- the comparisons of popping a copy of the queue empty with `op` (`pop` / `pop_min` / `pop_max`) -/
+def popAllTicks (q : Q Pr) (op : Op Pr) : Nat :=
+  match (do let mut q := q; let t0 := q.s.ticks
+            for _ in [0:q.s.size + 1] do
+              let (q', _) ← step q op
+              q := q'
+            pure (q.s.ticks - t0) : R Nat) with
+  | .ok n => n | .error _ => 0
 
 /-- ops whose comparisons are performed on a consumed copy: the harness counts them, the model's state does not change -/
 def copyOpTicks (st : St) (op : String) (args : List String) : Nat :=
-  let s := st.s
   match op with
-  | "into_sorted_vec" =>
-    match (do let mut s := s; let t0 := s.ticks
-              for _ in [0:s.size + 1] do
-                let (s', _) ← MaxQ.pop s
-                s := s'
-              pure (s.ticks - t0) : R Nat) with
-    | .ok n => n | .error _ => 0
-  | "into_asc_vec" =>
-    match (do let mut s := s; let t0 := s.ticks
-              for _ in [0:s.size + 1] do
-                let (s', _) ← DQ.popMin s
-                s := s'
-              pure (s.ticks - t0) : R Nat) with
-    | .ok n => n | .error _ => 0
-  | "into_desc_vec" =>
-    match (do let mut s := s; let t0 := s.ticks
-              for _ in [0:s.size + 1] do
-                let (s', _) ← DQ.popMax s
-                s := s'
-              pure (s.ticks - t0) : R Nat) with
-    | .ok n => n | .error _ => 0
+  | "into_sorted_vec" | "into_asc_vec" => popAllTicks st .popFront
+  | "into_desc_vec" => popAllTicks st .popBack
   | "into_sorted_iter" =>
     match ((rep (args.length - 1) xcall).run (args.drop 1)) with
     | .ok (calls, _) =>
-      (match runSorted st.kind calls s with
+      (match runSorted st.kind calls st.s with
        | .ok (_, n) => n | .error _ => 0)
     | .error _ => 0
-  | "eq" | "append" => 0
   | _ => 0
 
 /-- execute one trace line; returns the new state and the model's canonical output string -/
@@ -843,10 +842,10 @@ def runLine (st : St) (lhs : List String) : Except String (St × String) :=
           | .error f => .ok (st, showFault f ++ " | -" ++ " @" ++ showFaultSite f)
           | .ok (st', out) =>
             let dt := (st'.s.ticks - st.s.ticks) + copyOpTicks st op args
-            -- `load`, `from_*`, `deser` replace the store: their tick delta is the new store's own count
+            -- `load` installs a snapshot: no comparisons.  (`from_*`, `deser*` replace the store: `runDec` adds the new
+            -- store's own count to the running total, so the delta is that count.)
             let dt := match op with
               | "load" => 0
-              | "from_iter" | "from_vec" => st'.s.ticks
               | _ => dt
             .ok (st', out ++ " | " ++ showSnap st'.kind st'.s dt)
 
